@@ -8,6 +8,7 @@ from ..util import KIND, MODEL_NAMES, build, models
 
 PROPERTY = "C13"
 PYTEST_PREFIX = "C13/"
+TECHNIQUE = "runtime monitoring: complete enumeration of a malformed-argument grammar under a frame monitor (exception class, no side effect)"
 LEVEL = "fault_enumeration"
 RULE = ("A finite grammar of malformed arguments is enumerated COMPLETELY at every position of each base game: teams in "
         "{None, tuple, dict, set, str, int, generator, [], [one team]}; team i in {tuple, None, int, str, dict, bare "
